@@ -68,10 +68,15 @@ K("K.mem.regfile_index", "sim__mem.rs", "regfile_index_contract", ["C16", "C08"]
 RS = "std::hash::RandomState::new=fixed keys (hash keys do not affect map semantics)"
 K("K.frame.depth", "sim__frame.rs", "depth_contract", ["C27", "C16"], ["FrameStack::push_frame", "FrameStack::pop_frame", "FrameStack::len", "FrameStack::is_empty"],
   args=UF, stubs=[RS], group="frame")
-K("K.frame.debug_frame", "sim__frame.rs", "debug_frame_no_signature", ["C27"], ["FrameStack::push_frame", "FrameStack::pop_frame", "FrameStack::frames"],
-  kind="bounded", bound="<= 1 frame already on the list; no signature registered", args=UF, stubs=[RS], group="frame", tier="thorough", exploratory=True, timeout=1800)
-K("K.frame.arguments", "sim__frame.rs", "get_arguments_contract", ["C27"], ["ParameterList::get_arguments"],
-  kind="bounded", bound="<= 2 parameters", args=UF, stubs=[], group="frame", tier="thorough", exploratory=True, timeout=1800)
+for h, b in (("debug_frame_0", "empty frame list"), ("debug_frame_1", "one frame already on the list")):
+    K(f"K.frame.{h}", "sim__frame.rs", h, ["C27"], ["FrameStack::push_frame", "FrameStack::pop_frame", "FrameStack::frames"],
+      kind="bounded", bound=b + "; no signature registered for the callee", args=UF, stubs=[RS], group="frame", timeout=1200)
+for n in (0, 1, 2):
+    K(f"K.frame.arguments_{n}", "sim__frame.rs", f"arguments_{n}", ["C27"], ["ParameterList::get_arguments"],
+      kind="bounded", bound=f"{n} parameter(s)", args=UF, group="frame", timeout=1200)
+
+K("K.frame.signature", "sim__frame.rs", "debug_frame_with_signature", ["C27"], ["FrameStack::set_subroutine_def", "FrameStack::get_subroutine_def", "FrameStack::push_frame", "ParameterList::get_arguments"],
+  kind="bounded", bound="one callee at the concrete address x4000, one-parameter pass-by-register signatures registered twice", args=UF, stubs=[RS], unwindset={"hashbrown": 3}, timeout=2400, tier="thorough", exploratory=True)
 
 # ------------------------------------------------------------------------------------------------ sim/device.rs
 SLOT = "<SimDevice as ExternalDevice>::{io_read,io_write,poll_interrupt,io_reset}=recording stub: arbitrary result, no access to simulator state (guaranteed by the &mut self signature)"
@@ -83,7 +88,7 @@ for h, b in (("add_device_0_ports", "3 devices, 0 ports"), ("add_device_1_port_3
     K(f"K.device.{h}", "sim__device.rs", h, ["C32"], ["DeviceHandler::add_device", "DeviceHandler::get_dev_id"], kind="bounded", bound=b + "; port table fully symbolic", group="dev")
 for h, b in (("remove_device_3", "removed id 3"), ("remove_device_4", "removed id 4"), ("remove_device_kbd", "removed id 1 (keyboard)"), ("remove_device_null", "removed id 0"), ("remove_device_absent", "removed id 9 (no such device)")):
     K(f"K.device.{h}", "sim__device.rs", h, ["C32"], ["DeviceHandler::remove_device"], kind="bounded",
-      bound="<= 5 devices; arbitrary owners at two concrete ports, unowned elsewhere; " + b, group="dev", timeout=1200)
+      bound="5 device slots; arbitrary owner at one concrete port, unowned elsewhere; " + b, group="dev", timeout=1200)
 K("K.device.set_kbd_display", "sim__device.rs", "set_keyboard_display_contract", ["C32"], ["DeviceHandler::set_keyboard", "DeviceHandler::set_display"], group="dev")
 K("K.device.interrupt_leaf", "sim__device.rs", "interrupt_leaf", ["C10", "C34"], ["Interrupt::vectored", "Interrupt::priority"], group="dev", replay="native")
 K("K.device.poll_arbitration_3", "sim__device.rs", "poll_arbitration_3", ["C10"], ["DeviceHandler::poll_interrupt"], kind="bounded", bound="3 device slots", stubs=[SLOT], group="dev")
@@ -185,6 +190,9 @@ for n in (9, 11):
 for h in ("source_info_0_0", "source_info_3_0", "source_info_3_1", "source_info_6_2", "source_info_8_2"):
     K(f"K.asm.{h}", "asm.rs", h, ["C25"], ["SourceInfo::count_lines", "SourceInfo::raw_line_span", "SourceInfo::get_line", "SourceInfo::get_pos_pair"],
       kind="bounded", bound="text of %s bytes with %s newlines at symbolic positions" % tuple(h.split("_")[2:]), group="src", replay="native")
+for h in ("line_span_2_0", "line_span_3_1", "line_span_4_1"):
+    K(f"K.asm.{h}", "asm.rs", h, ["C25"], ["SourceInfo::line_span", "SourceInfo::read_line", "SourceInfo::raw_line_span"], kind="bounded",
+      bound="ASCII text of %s symbolic bytes with %s newline(s)" % tuple(h.split("_")[2:]), group="src", timeout=1200)
 for v in ("upper", "lower", "other"):
     K(f"K.asm.symtab_lookup_{v}", "asm.rs", f"symtab_lookup_{v}", ["C23"], ["SymbolTable::lookup_label"], kind="bounded", bound=f"one label named Q; query spelling: {v}", stubs=[RS], timeout=1800)
     K(f"K.asm.symtab_source_{v}", "asm.rs", f"symtab_source_{v}", ["C23"], ["SymbolTable::get_label_source", "SymbolData::span"], kind="bounded", bound=f"one label named Q; query spelling: {v}", stubs=[RS], timeout=1800)
@@ -200,9 +208,9 @@ for h in ("split_0", "split_3", "split_8", "take_2_of_1", "take_2_of_5", "take_8
     K(f"K.enc.{h}", "asm__encoding.rs", h, ["C19"], ["take", "take_slice", "try_split_at", "map_chunks", "assert_sorted_no_dup"], kind="bounded", bound="slices of <= 8 bytes", group="enc")
 
 # ------------------------------------------------------------------------------------------------ Verus units
-Vv("V.shift", "shift", ["C01", "C02"], ["Cursor::shift (nested in SymbolTable::new)"], 2,
+Vv("V.shift", "shift", ["C01", "C02"], ["Cursor::shift (nested in SymbolTable::new)"], 3,
    assumptions=["core::mem::take and u16::wrapping_neg: assumed specifications (documented behaviour)", "Verus integer types are range-checked mathematical integers"])
-Vv("V.timer", "timer", ["C34"], ["TimerDevice::poll_interrupt", "TimerDevice::reset_remaining", "TimerDevice::io_reset"], None,
+Vv("V.timer", "timer", ["C34"], ["TimerDevice::poll_interrupt", "TimerDevice::reset_remaining", "TimerDevice::io_reset"], 8,
    assumptions=["TimerDevice::try_generate_time (rand crate): assumed contract 'result inside the configured range, nothing else changes'",
                 "ranges containing 0 are outside the interval lemma's precondition (stated)", "Interrupt::vectored represented by its contract (K.device.interrupt_leaf)"])
 
